@@ -249,6 +249,7 @@ func runC05(c *kit.Ctx) {
 
 	// ---- R4 ---------------------------------------------------------------
 	c.StartRule("R4", "header provenance", 4)
+	callIDDiscipline(c)
 	{
 		rpcParam := paramOfType(mp, "/hrpc.Call", 0)
 		fields := map[string]ssa.Value{}
@@ -294,6 +295,7 @@ func runC05(c *kit.Ctx) {
 
 	// ---- R5 ---------------------------------------------------------------
 	c.StartRule("R5", "every option written into a request struct reaches the wire", 30)
+	cellblockFormMatchesProtoForm(c)
 	clientSide := map[string]string{
 		"base.ctx":                 "cancellation only",
 		"base.resultch":            "delivery of the result only",
